@@ -85,55 +85,183 @@ theorem relEqual_symm (a b : Option (Str × Nat)) : relEqual a b = relEqual b a 
 theorem relEqual_iff (a b : Option (Str × Nat)) : relEqual a b = true ↔ a = b := by
   cases a <;> cases b <;> simp [relEqual, Prod.ext_iff]
 
-theorem transportAddressEqual_refl (c : Cand) : transportAddressEqual c c = true := by
-  unfold transportAddressEqual
-  cases resolved c <;> simp
+/-! ### `sameAddressLiteral` is an equivalence relation (for every `Env`, no law needed): it is
+equality of the key "canonical address if the string is an IP literal, else the string itself",
+except that two identical strings are always related. -/
 
-theorem transportAddressEqual_symm (c o : Cand) : transportAddressEqual c o = transportAddressEqual o c := by
-  unfold transportAddressEqual
-  rw [Bool.eq_iff_iff]
-  cases resolved c <;> cases resolved o <;> simp only [Bool.and_eq_true, beq_iff_eq, Bool.true_and] <;>
-    first
-    | exact ⟨fun h => ⟨⟨⟨⟨h.1.1.1.1.symm, h.1.1.1.2.symm⟩, h.1.1.2.symm⟩, h.1.2.symm⟩, h.2.symm⟩,
-             fun h => ⟨⟨⟨⟨h.1.1.1.1.symm, h.1.1.1.2.symm⟩, h.1.1.2.symm⟩, h.1.2.symm⟩, h.2.symm⟩⟩
-    | exact ⟨fun h => ⟨⟨⟨h.1.1.1.symm, h.1.1.2.symm⟩, h.1.2.symm⟩, h.2.symm⟩,
-             fun h => ⟨⟨⟨h.1.1.1.symm, h.1.1.2.symm⟩, h.1.2.symm⟩, h.2.symm⟩⟩
-    | simp
+theorem sameAddressLiteral_refl (env : Env) (a : Str) : sameAddressLiteral env a a = true := by
+  simp [sameAddressLiteral]
 
-theorem equal_refl (c : Cand) : equal c c = true := by
-  simp [equal, transportAddressEqual_refl, relEqual_refl]
+theorem sameAddressLiteral_iff (env : Env) (a b : Str) :
+    sameAddressLiteral env a b = true ↔ a = b ∨ ∃ k, env.canon a = some k ∧ env.canon b = some k := by
+  unfold sameAddressLiteral
+  simp only [Bool.or_eq_true, beq_iff_eq]
+  constructor
+  · rintro (h | h)
+    · exact Or.inl h
+    · right
+      cases ha : env.canon a with
+      | none => rw [ha] at h; cases h
+      | some ka =>
+        cases hb : env.canon b with
+        | none => rw [ha, hb] at h; cases h
+        | some kb =>
+          rw [ha, hb] at h
+          have : ka = kb := by simpa using h
+          exact ⟨ka, rfl, by rw [this]⟩
+  · rintro (h | ⟨k, ha, hb⟩)
+    · exact Or.inl h
+    · right; rw [ha, hb]; simp
 
-theorem equal_symm (c o : Cand) : equal c o = equal o c := by
+theorem sameAddressLiteral_symm (env : Env) (a b : Str) :
+    sameAddressLiteral env a b = sameAddressLiteral env b a := by
+  rw [Bool.eq_iff_iff, sameAddressLiteral_iff, sameAddressLiteral_iff]
+  constructor
+  · rintro (h | ⟨k, h1, h2⟩)
+    · exact Or.inl h.symm
+    · exact Or.inr ⟨k, h2, h1⟩
+  · rintro (h | ⟨k, h1, h2⟩)
+    · exact Or.inl h.symm
+    · exact Or.inr ⟨k, h2, h1⟩
+
+theorem sameAddressLiteral_trans (env : Env) (a b c : Str)
+    (h1 : sameAddressLiteral env a b = true) (h2 : sameAddressLiteral env b c = true) :
+    sameAddressLiteral env a c = true := by
+  rw [sameAddressLiteral_iff] at h1 h2 ⊢
+  rcases h1 with h1 | ⟨k, ha, hb⟩
+  · subst h1; exact h2
+  · rcases h2 with h2 | ⟨k', hb', hc⟩
+    · subst h2; exact Or.inr ⟨k, ha, hb⟩
+    · rw [hb] at hb'
+      have : k = k' := by simpa using hb'
+      subst this
+      exact Or.inr ⟨k, ha, hc⟩
+
+/-- the test on the resolved addresses: both nil, or `addrEqual` -/
+def resEq (a b : Option (Bool × AddrClass × Option Str × Nat)) : Bool :=
+  match a, b with
+  | none, none => true
+  | some a, some b => a == b
+  | _, _ => false
+
+theorem resEq_iff (a b : Option (Bool × AddrClass × Option Str × Nat)) : resEq a b = true ↔ a = b := by
+  cases a <;> cases b <;> simp [resEq]
+
+theorem transportAddressEqual_iff (env : Env) (c o : Cand) :
+    transportAddressEqual env c o = true ↔
+      resolved env c = resolved env o ∧ c.net = o.net ∧ sameAddressLiteral env c.address o.address = true ∧
+      c.port = o.port ∧ c.tcpType = o.tcpType := by
+  have h : transportAddressEqual env c o =
+      (resEq (resolved env c) (resolved env o) && c.net == o.net && sameAddressLiteral env c.address o.address
+        && c.port == o.port && c.tcpType == o.tcpType) := rfl
+  rw [h]
+  simp only [Bool.and_eq_true, beq_iff_eq, resEq_iff]
+  constructor
+  · rintro ⟨⟨⟨⟨h1, h2⟩, h3⟩, h4⟩, h5⟩; exact ⟨h1, h2, h3, h4, h5⟩
+  · rintro ⟨h1, h2, h3, h4, h5⟩; exact ⟨⟨⟨⟨h1, h2⟩, h3⟩, h4⟩, h5⟩
+
+theorem transportAddressEqual_refl (env : Env) (c : Cand) : transportAddressEqual env c c = true := by
+  rw [transportAddressEqual_iff]
+  exact ⟨rfl, rfl, sameAddressLiteral_refl env _, rfl, rfl⟩
+
+theorem transportAddressEqual_symm (env : Env) (c o : Cand) :
+    transportAddressEqual env c o = transportAddressEqual env o c := by
+  rw [Bool.eq_iff_iff, transportAddressEqual_iff, transportAddressEqual_iff, sameAddressLiteral_symm env c.address]
+  exact ⟨fun ⟨h1, h2, h3, h4, h5⟩ => ⟨h1.symm, h2.symm, h3, h4.symm, h5.symm⟩,
+         fun ⟨h1, h2, h3, h4, h5⟩ => ⟨h1.symm, h2.symm, h3, h4.symm, h5.symm⟩⟩
+
+theorem transportAddressEqual_trans (env : Env) (a b c : Cand)
+    (h1 : transportAddressEqual env a b = true) (h2 : transportAddressEqual env b c = true) :
+    transportAddressEqual env a c = true := by
+  rw [transportAddressEqual_iff] at h1 h2 ⊢
+  obtain ⟨a1, a2, a3, a4, a5⟩ := h1
+  obtain ⟨b1, b2, b3, b4, b5⟩ := h2
+  exact ⟨a1.trans b1, a2.trans b2, sameAddressLiteral_trans env _ _ _ a3 b3, a4.trans b4, a5.trans b5⟩
+
+theorem equal_iff' (env : Env) (c o : Cand) :
+    equal env c o = true ↔ transportAddressEqual env c o = true ∧ c.typ = o.typ ∧ c.related = o.related := by
   unfold equal
-  rw [transportAddressEqual_symm c o, relEqual_symm c.related o.related]
-  congr 2
-  rw [Bool.eq_iff_iff]; simp only [beq_iff_eq]; exact ⟨Eq.symm, Eq.symm⟩
+  simp only [Bool.and_eq_true, beq_iff_eq, relEqual_iff]
+  exact ⟨fun ⟨⟨h1, h2⟩, h3⟩ => ⟨h1, h2, h3⟩, fun ⟨h1, h2, h3⟩ => ⟨⟨h1, h2⟩, h3⟩⟩
 
-theorem deepEqual_refl (c : Cand) : deepEqual c c = true := by
+theorem equal_refl (env : Env) (c : Cand) : equal env c c = true := by
+  rw [equal_iff']; exact ⟨transportAddressEqual_refl env c, rfl, rfl⟩
+
+theorem equal_symm (env : Env) (c o : Cand) : equal env c o = equal env o c := by
+  rw [Bool.eq_iff_iff, equal_iff', equal_iff', transportAddressEqual_symm env c o]
+  exact ⟨fun ⟨h1, h2, h3⟩ => ⟨h1, h2.symm, h3.symm⟩, fun ⟨h1, h2, h3⟩ => ⟨h1, h2.symm, h3.symm⟩⟩
+
+theorem equal_trans (env : Env) (a b c : Cand) (h1 : equal env a b = true) (h2 : equal env b c = true) :
+    equal env a c = true := by
+  rw [equal_iff'] at h1 h2 ⊢
+  exact ⟨transportAddressEqual_trans env a b c h1.1 h2.1, h1.2.1.trans h2.2.1, h1.2.2.trans h2.2.2⟩
+
+theorem deepEqual_refl (env : Env) (c : Cand) : deepEqual env c c = true := by
   simp [deepEqual, equal_refl, extensionsEqual_refl]
 
-theorem deepEqual_symm (c o : Cand) : deepEqual c o = deepEqual o c := by
+theorem deepEqual_symm (env : Env) (c o : Cand) : deepEqual env c o = deepEqual env o c := by
   unfold deepEqual
-  rw [equal_symm c o, extensionsEqual_symm]
+  rw [equal_symm env c o, extensionsEqual_symm]
 
-theorem deepEqual_equal (c o : Cand) (h : deepEqual c o = true) : equal c o = true := by
+theorem deepEqual_equal (env : Env) (c o : Cand) (h : deepEqual env c o = true) : equal env c o = true := by
   unfold deepEqual at h
   exact (Bool.and_eq_true_iff.mp h).1
 
-/-- `Equal` in terms of the fields (the resolved address is determined by them). -/
-theorem equal_iff (c o : Cand) :
-    equal c o = true ↔ c.net = o.net ∧ c.address = o.address ∧ c.port = o.port ∧ c.tcpType = o.tcpType ∧
-      c.typ = o.typ ∧ c.related = o.related := by
-  unfold equal transportAddressEqual
-  simp only [Bool.and_eq_true, beq_iff_eq, relEqual_iff]
+theorem deepEqual_trans (env : Env) (a b c : Cand) (h1 : deepEqual env a b = true)
+    (h2 : deepEqual env b c = true) : deepEqual env a c = true := by
+  unfold deepEqual at h1 h2 ⊢
+  rw [Bool.and_eq_true] at h1 h2 ⊢
+  refine ⟨equal_trans env a b c h1.1 h2.1, ?_⟩
+  rw [extensionsEqual_iff_perm] at *
+  exact h1.2.trans h2.2
+
+/-- Candidates with the same fields are `Equal` (whatever `Env` is): what the round trip needs. -/
+theorem equal_of_fields (env : Env) (c o : Cand) (h1 : c.net = o.net) (h2 : c.address = o.address)
+    (h3 : c.port = o.port) (h4 : c.tcpType = o.tcpType) (h5 : c.typ = o.typ) (h6 : c.related = o.related) :
+    equal env c o = true := by
+  rw [equal_iff', transportAddressEqual_iff]
+  refine ⟨⟨?_, h1, ?_, h3, h4⟩, h5, h6⟩
+  · unfold resolved; rw [h1, h2, h3, h5]
+  · rw [h2]; exact sameAddressLiteral_refl env _
+
+/-- `cls` of two literals with one canonical address, under `EnvLaw`. -/
+theorem cls_eq_of_canon (env : Env) (hl : EnvLaw env) (a b k : Str) (ha : env.canon a = some k)
+    (hb : env.canon b = some k) : env.cls a = env.cls b := by
+  rw [hl a, hl b, ha, hb]
+
+/-- **`Equal` in terms of the getters**, under `EnvLaw`: type, network type, port, TCP type and
+related address are equal, the addresses are the same literal or two literals of one canonical IP, and
+(host candidates) both or neither is an unresolved mDNS name.  The test on the resolved addresses adds
+nothing else. -/
+theorem equal_iff (env : Env) (hl : EnvLaw env) (c o : Cand) :
+    equal env c o = true ↔ c.typ = o.typ ∧ c.net = o.net ∧ c.port = o.port ∧ c.tcpType = o.tcpType ∧
+      c.related = o.related ∧ sameAddressLiteral env c.address o.address = true ∧
+      (c.typ = .host → isMDNS c.address = isMDNS o.address) := by
+  rw [equal_iff', transportAddressEqual_iff]
   constructor
-  · rintro ⟨⟨⟨⟨⟨⟨_, h1⟩, h2⟩, h3⟩, h4⟩, h5⟩, h6⟩
-    exact ⟨h1, h2, h3, h4, h5, h6⟩
-  · rintro ⟨h1, h2, h3, h4, h5, h6⟩
-    refine ⟨⟨⟨⟨⟨⟨?_, h1⟩, h2⟩, h3⟩, h4⟩, h5⟩, h6⟩
-    have : resolved c = resolved o := by
-      unfold resolved; rw [h1, h2, h3, h5]
-    rw [this]
-    cases resolved o <;> simp
+  · rintro ⟨⟨hr, h1, h2, h3, h4⟩, h5, h6⟩
+    refine ⟨h5, h1, h3, h4, h6, h2, ?_⟩
+    intro hh
+    have hh' : o.typ = .host := h5 ▸ hh
+    unfold resolved at hr
+    rw [hh, hh'] at hr
+    by_cases hc : isMDNS c.address = true <;> by_cases ho : isMDNS o.address = true
+    · rw [hc, ho]
+    · rw [if_pos hc, if_neg ho] at hr; cases hr
+    · rw [if_neg hc, if_pos ho] at hr; cases hr
+    · rw [Bool.not_eq_true] at hc ho; rw [hc, ho]
+  · rintro ⟨h5, h1, h3, h4, h6, h2, hm⟩
+    refine ⟨⟨?_, h1, h2, h3, h4⟩, h5, h6⟩
+    have hcc : env.cls c.address = env.cls o.address ∧ env.canon c.address = env.canon o.address := by
+      rcases (sameAddressLiteral_iff env _ _).mp h2 with h | ⟨k, ha, hb⟩
+      · rw [h]; exact ⟨rfl, rfl⟩
+      · exact ⟨cls_eq_of_canon env hl _ _ k ha hb, by rw [ha, hb]⟩
+    unfold resolved
+    rw [← h5, ← h1, ← h3, hcc.1, hcc.2]
+    cases hty : c.typ with
+    | host => rw [hm hty]
+    | srflx => rfl
+    | prflx => rfl
+    | relay => rfl
 
 end IceProofs.CandText
